@@ -46,6 +46,17 @@ func init() {
 										continue
 									}
 									cells = append(cells, P("cookie", cookie, "hc", hc, "muxenv", mux, "proto", proto, "tlsm", tlsm, "ln", ln))
+									if cookie == "right" && hc == "ok" && mux == "unset" && tlsm == "none" {
+										// whatever else is in the environment, only the handshake line may appear on stdout
+										for _, ve := range []string{"unset", "empty", "1,", "1, 2", "v2,1", "1,2,x", ",", "9"} {
+											cells = append(cells, P("cookie", cookie, "hc", hc, "muxenv", mux, "proto", proto, "tlsm", tlsm, "ln", ln, "versenv", ve))
+										}
+										if ln == "tcp" {
+											for _, pe := range []string{"junk-min", "junk-max", "min>max", "unset"} {
+												cells = append(cells, P("cookie", cookie, "hc", hc, "muxenv", mux, "proto", proto, "tlsm", tlsm, "ln", ln, "portenv", pe))
+											}
+										}
+									}
 								}
 							}
 						}
@@ -143,12 +154,23 @@ func runC16(r *h.Run) {
 	case "true", "false", "junk", "1":
 		env = append(env, "PLUGIN_MULTIPLEX_GRPC="+muxenv)
 	}
-	env = append(env, "PLUGIN_PROTOCOL_VERSIONS=1")
+	versenv := r.Spec.P("versenv", "1")
+	switch versenv {
+	case "unset":
+	case "empty":
+		env = append(env, "PLUGIN_PROTOCOL_VERSIONS=")
+	default:
+		env = append(env, "PLUGIN_PROTOCOL_VERSIONS="+versenv)
+	}
+	if versenv != "1" {
+		ctx += " versions-env=" + versenv
+	}
 	if tlsm == "envcert" {
 		certPEM, _ := h.SelfSignedPEM()
 		env = append(env, "PLUGIN_CLIENT_CERT="+string(certPEM))
 	}
 	var opts *k.SpawnOpts
+	noListener := false
 	switch ln {
 	case "unixdir":
 		w.Mkdir("/run/plugsock")
@@ -156,7 +178,25 @@ func runC16(r *h.Run) {
 		env = append(env, "PLUGIN_UNIX_SOCKET_DIR=/run/plugsock")
 	case "tcp", "tcpbusy":
 		opts = &k.SpawnOpts{GOOS: "windows"}
-		env = append(env, "PLUGIN_MIN_PORT=10000", "PLUGIN_MAX_PORT=10005")
+		listenerMayFail := false
+		switch r.Spec.P("portenv", "") {
+		case "junk-min":
+			env = append(env, "PLUGIN_MIN_PORT=abc", "PLUGIN_MAX_PORT=10005")
+			listenerMayFail = true
+		case "junk-max":
+			env = append(env, "PLUGIN_MIN_PORT=10000", "PLUGIN_MAX_PORT=1e4")
+			listenerMayFail = true
+		case "min>max":
+			env = append(env, "PLUGIN_MIN_PORT=10005", "PLUGIN_MAX_PORT=10000")
+			listenerMayFail = true
+		case "unset":
+		default:
+			env = append(env, "PLUGIN_MIN_PORT=10000", "PLUGIN_MAX_PORT=10005")
+		}
+		if listenerMayFail {
+			ctx += " portenv=" + r.Spec.P("portenv", "")
+			noListener = true
+		}
 		if ln == "tcpbusy" {
 			for p := 10000; p <= 10003; p++ {
 				w.SetPortBusy(p)
@@ -164,6 +204,20 @@ func runC16(r *h.Run) {
 		}
 	}
 	expectServe := cookie == "right" && hc == "ok"
+	if noListener {
+		// the plugin cannot create its listener: it must not announce anything
+		rp, err := r.SpawnRaw("plugin", "/bin/served", env, opts)
+		if err != nil {
+			r.Violate("setup", "spawn failed", err.Error())
+			return
+		}
+		time.Sleep(5 * time.Second)
+		if out := rp.Stdout.String(); out != "" {
+			r.Violate("stdout-without-listener", ctx, fmt.Sprintf("no listener could be created but stdout carries %q", firstN(out, 200)))
+		}
+		rp.P.Kill()
+		return
+	}
 
 	// kernel tap on the raw stdout: at the newline the listener must exist
 	var mu sync.Mutex
@@ -281,6 +335,7 @@ wait:
 		r.Violate("wrong-field-count", ctx, fmt.Sprintf("handshake line %q has %d fields, want %d", lines[0], len(f), want))
 	} else {
 		if f[0] != "1" || f[1] != "1" || f[4] != proto {
+			// (the plugin serves version 1 only: whatever list it is given, it announces 1)
 			r.Violate("wrong-line-content", ctx, fmt.Sprintf("handshake line %q", lines[0]))
 		}
 		if tlsm == "envcert" && len(f[5]) < 50 {
